@@ -184,7 +184,27 @@ inductive Val where
   | str (s : String)
   | list (vs : List Val)
   | node (c : Cls) (coord : Option Coord) (fs : List Val)
-  deriving Repr, Inhabited, BEq
+  deriving Repr, Inhabited
+
+/-! structural equality, written out (the derived `BEq` of a nested inductive is opaque to proofs) -/
+mutual
+def Val.beq : Val → Val → Bool
+  | .none, .none => true
+  | .str a, .str b => a == b
+  | .list a, .list b => Val.beqL a b
+  | .node c co fs, .node c' co' fs' => c == c' && co == co' && Val.beqL fs fs'
+  | _, _ => false
+def Val.beqL : List Val → List Val → Bool
+  | [], [] => true
+  | a :: as, b :: bs => Val.beq a b && Val.beqL as bs
+  | _, _ => false
+end
+
+instance : BEq Val := ⟨Val.beq⟩
+
+theorem Val.beq_str (a b : String) : (Val.str a == Val.str b) = (a == b) := by
+  show Val.beq _ _ = _
+  simp [Val.beq]
 
 namespace Val
 
